@@ -574,10 +574,12 @@ def gather(ctx):
     rng = ctx.rng
     q = ctx.quick()
     pops = []
-    pops += list(popgen.plain(rng, 20 if q else 80))
-    pops += list(popgen.shape(rng, 28 if q else 110))
+    pops += list(popgen.plain(rng, 14 if q else 80))
+    pops += list(popgen.shape(rng, 22 if q else 110))
     pops += list(popgen.occupancy(rng, 50 if q else 200))
-    pops += list(popgen.affine(rng, 26 if q else 100))
+    pops += list(popgen.affine(rng, 18 if q else 100))
+    pops += list(popgen.affine_rich(rng, 16 if q else 80))
+    pops += list(popgen.affine_occ(rng, 6 if q else 30))
     pops += list(popgen.cascade(rng, 10 if q else 40))
     pops += deep_specs(rng, 24 if q else 90)
     base = list(popgen.shape(rng, 8 if q else 30)) + list(popgen.occupancy(rng, 22 if q else 90))
